@@ -242,7 +242,8 @@ pub fn op_neg(args: &[&str]) -> String {
         last = format!("{} w={} hs={} in={}", res, t, hs, if inside.is_empty() { "-".to_string() } else { inside.join(",") });
         let joins: Vec<&String> = all.iter().filter(|x| x.starts_with("cj:")).collect();
         if joins.is_empty() { break; }
-        let first_is_global = joins[0].ends_with(":1003");
+        let f: Vec<u32> = joins[0].split(':').skip(1).map(|x| x.parse().unwrap()).collect();
+        let first_is_global = f[1] != f[0] + 1001;
         let same = joins.len() == 2 && joins[0] == joins[1];
         if same || first_is_global == want_global_first { break; }
     }
